@@ -66,8 +66,47 @@ pub struct VringEpollHandler {
     pub exit_event_fd: Option<EventNotifier>, pub phantom: PhantomData,
 }
 // R23: Arc<VringEpollHandler<T>> is modelled by the handler itself (shared immutable handle)
-pub struct VhostUserHandler { pub handlers: Vec<VringEpollHandler> }
+pub struct VhostUserHandler { pub handlers: Vec<VringEpollHandler>, pub worker_threads: Vec<JoinHandle> }
 // the eventfds that have to be written when every worker is told to exit: one per worker that has an exit event, in worker order
 pub open spec fn exit_ids(hs: Seq<VringEpollHandler>, k: int) -> Seq<int> decreases k {
     if k <= 0 { Seq::empty() } else if hs[k - 1].exit_event_fd is Some { exit_ids(hs, k - 1).push(hs[k - 1].exit_event_fd->Some_0.ev@) } else { exit_ids(hs, k - 1) }
+}
+// ---- teardown (Drop for VhostUserHandler): a worker thread ends only after its exit event was written (event_loop.rs run():
+// Ok only after handle_event reported the exit event, unit evloop), so joining a worker whose exit event has NOT been written
+// blocks for ever. `join_after_exit` carries that as its precondition.
+pub struct JoinHandle { pub worker: Ghost<int> }
+pub struct JoinErr;
+impl JoinHandle {
+    // assumed: A-THREAD JoinHandle::join returns once the thread has ended; the worker thread ends once its exit event is written
+    // (proved for the loop itself in unit evloop); R8: the handlers and the log are passed so that the precondition can name them
+    #[verifier::external_body]
+    pub fn join_after_exit(self, hs: &Vec<VringEpollHandler>, log: &ExitLog) -> (r: core::result::Result<(), JoinErr>)
+        requires 0 <= self.worker@ < hs@.len(),
+            hs@[self.worker@].exit_event_fd is Some ==> log.notified@.contains(hs@[self.worker@].exit_event_fd->Some_0.ev@),
+    { unimplemented!() }
+}
+pub proof fn lemma_exit_ids_contains(hs: Seq<VringEpollHandler>, k: int, t: int)
+    requires 0 <= t < k <= hs.len(), hs[t].exit_event_fd is Some
+    ensures exit_ids(hs, k).contains(hs[t].exit_event_fd->Some_0.ev@)
+    decreases k
+{
+    let prev = exit_ids(hs, k - 1);
+    if t == k - 1 {
+        let s = prev.push(hs[t].exit_event_fd->Some_0.ev@);
+        assert(s[s.len() - 1] == hs[t].exit_event_fd->Some_0.ev@);
+    } else {
+        lemma_exit_ids_contains(hs, k - 1, t);
+        let y = hs[t].exit_event_fd->Some_0.ev@;
+        let i = choose|i: int| 0 <= i < prev.len() && prev[i] == y;
+        if hs[k - 1].exit_event_fd is Some {
+            let s = prev.push(hs[k - 1].exit_event_fd->Some_0.ev@);
+            assert(s[i] == y);
+        }
+    }
+}
+pub proof fn lemma_concat_contains(a: Seq<int>, b: Seq<int>, y: int)
+    requires b.contains(y) ensures (a + b).contains(y)
+{
+    let i = choose|i: int| 0 <= i < b.len() && b[i] == y;
+    assert((a + b)[a.len() + i] == y);
 }
